@@ -26,6 +26,9 @@ type vfCaseC02 struct {
 func vfGenSrvCfg(t *rapid.T) vfSrvCfg {
 	c := vfSrvCfg{Kind: rapid.SampledFrom([]string{"os", "rs"}).Draw(t, "srvkind"), Alloc: rapid.Bool().Draw(t, "alloc")}
 	c.Chunk = rapid.SampledFrom([]int{0, 0, 1, 7}).Draw(t, "chunk")
+	// the payload limit can only be raised; 256 KiB is the largest frame either side accepts, and the option
+	// is documented as safe for larger values too
+	c.MaxTx = rapid.SampledFrom([]uint32{0, 0, 0, 32768, 65536, 262144, 1 << 20}).Draw(t, "maxtx")
 	if c.Kind == "rs" {
 		c.HOpts = vfHOpts{OpenFile: rapid.Bool().Draw(t, "openfile"), PosixRename: rapid.Bool().Draw(t, "posixrename"), StatVFS: rapid.Bool().Draw(t, "statvfs"),
 			Lstat: rapid.Bool().Draw(t, "lstat"), RealPath: rapid.IntRange(0, 2).Draw(t, "realpath"), Readlink: rapid.Bool().Draw(t, "readlink"), NameLookup: rapid.Bool().Draw(t, "namelookup")}
